@@ -537,6 +537,21 @@ impl<'a> VisitMut for Rw<'a> {
     }
 
     fn visit_expr_mut(&mut self, e: &mut Expr) {
+        // N15: a dependency constant named through its crate path (`alloy_rlp::EMPTY_STRING_CODE`) becomes its value
+        if let Expr::Path(p) = &*e {
+            if p.path.segments.len() >= 2 {
+                let first = p.path.segments.first().unwrap().ident.to_string();
+                let last = p.path.segments.last().unwrap().ident.to_string();
+                if (first == "alloy_rlp" || self.standin_crates.contains(&first)) && last.chars().all(|c| c.is_ascii_uppercase() || c.is_ascii_digit() || c == '_') {
+                    if let Some(v) = self.const_values.get(&last) {
+                        self.log.push(format!("N15 dependency constant `{}` -> {}", p.to_token_stream(), v));
+                        let lit = proc_macro2::Literal::u64_unsuffixed(*v);
+                        *e = parse_quote!(#lit);
+                        return;
+                    }
+                }
+            }
+        }
         // N4 (string literal at key position) must look at the un-rewritten call first
         if let Expr::MethodCall(mc) = e {
             let mname = mc.method.to_string();
